@@ -1,0 +1,40 @@
+//go:build verif
+
+package tlcp
+
+// Read-only accessors for the verification harness in /verif (build tag "verif").
+// Nothing here changes behaviour; without the tag this file is not compiled.
+
+// VerifFinished returns the client and server Finished verify_data recorded on the connection.
+//
+//go:norace
+func VerifFinished(c *Conn) (client, server [12]byte) {
+	return c.clientFinished, c.serverFinished
+}
+
+// VerifBuffered returns the number of bytes held in the per-connection buffers.
+//
+//go:norace
+func VerifBuffered(c *Conn) (hand, rawInput, input, sendBuf int) {
+	return c.hand.Len(), c.rawInput.Len(), c.input.Len(), len(c.sendBuf)
+}
+
+// VerifSession exposes the fields of a SessionState.
+//
+//go:norace
+func VerifSession(s *SessionState) (id []byte, vers, suite uint16, master []byte, peerCerts int) {
+	if s == nil {
+		return nil, 0, 0, nil, 0
+	}
+	return s.sessionId, s.vers, s.cipherSuite, s.masterSecret, len(s.peerCertificates)
+}
+
+// VerifNewSession builds a SessionState with the given fields.
+func VerifNewSession(id []byte, vers, suite uint16, master []byte) *SessionState {
+	return &SessionState{sessionId: id, vers: vers, cipherSuite: suite, masterSecret: master}
+}
+
+// VerifHandshakeErr returns the latched handshake error.
+//
+//go:norace
+func VerifHandshakeErr(c *Conn) error { return c.handshakeErr }
